@@ -10,11 +10,11 @@ open MRB
 
 /-- Every outcome of every operation of a contract-respecting history is the outcome the FIFO specification
     prescribes (values delivered to the consumer included), and the final states correspond. -/
-theorem C01_history_refines_fifo_spec (slots : List Nat) (hasW heap owned : Bool) (hlen : 1 ≤ slots.length)
+theorem C01_history_refines_fifo_spec (slots : List Nat) (hasW heap owned : Bool) (hlen : 1 ≤ slots.length) (hlt : slots.length < 2 ^ 63)
     (ops : List Op) (hal : AllowedRun (St.init slots hasW heap owned) (Sp.init slots.length hasW) ops) :
     Rel (run (St.init slots hasW heap owned) ops).1 ((Sp.init slots.length hasW).run ops).1 ∧
     absOuts ops (run (St.init slots hasW heap owned) ops).2 = ((Sp.init slots.length hasW).run ops).2 :=
-  run_refines (rel_init slots hasW heap owned hlen) ops hal
+  run_refines (rel_init slots hasW heap owned hlen hlt) ops hal
 
 /-- What the consumer has obtained is the list of accepted items (in push order, each with the edits made
     while it was in flight) below its published position, minus what explicit resets skipped. -/
@@ -64,9 +64,9 @@ theorem C01_source_call_order_and_wiring :
     Gen.skelNextRefMutInit = [⟨.check, .lit 1⟩, ⟨.asMutPtr, .none⟩] ∧
     Gen.skelNextChunk = [⟨.check, .count⟩] ∧ Gen.skelNextChunkMut.map (·.name) = [.check, .asMutPtr] ∧
     Gen.skelPush = [⟨.nextRefMutInit, .none⟩, ⟨.userF, .many⟩, ⟨.advance, .lit 1⟩] ∧
-    Gen.skelPushSlice = [⟨.nextChunkMut, .count⟩, ⟨.userF, .many⟩, ⟨.userF, .many⟩, ⟨.userF, .many⟩, ⟨.advance, .count⟩] ∧
+    Call.bracketed .nextChunkMut Gen.skelPushSlice = true ∧
     Gen.skelExtractItem = [⟨.nextRef, .none⟩, ⟨.userF, .many⟩, ⟨.advance, .lit 1⟩] ∧
-    Gen.skelExtractSlice = [⟨.nextChunkMut, .count⟩, ⟨.userF, .many⟩, ⟨.userF, .many⟩, ⟨.userF, .many⟩, ⟨.advance, .count⟩] ∧
+    Call.bracketed .nextChunkMut Gen.skelExtractSlice = true ∧
     Gen.skelPop = [⟨.nextDuplicate, .none⟩] ∧ Gen.skelPopMove = [⟨.next, .none⟩] ∧ Gen.skelPeekRef = [⟨.nextRef, .none⟩] ∧
     Gen.skelPeekSlice = [⟨.nextChunk, .count⟩] ∧ Gen.skelPeekAvailable.map (·.name) = [.available, .peekSlice] ∧
     Gen.skelAdvance = [⟨.advanceLocal, .count⟩, ⟨.setAtomicIndex, .index⟩] ∧ Gen.skelPubAdvance = [⟨.advance', .count⟩] ∧
